@@ -28,6 +28,8 @@
 #ifndef CONTRACTS_REGP_PROC_H
 #define CONTRACTS_REGP_PROC_H
 
+#include <ufw/register-protocol.h>
+#include <ufw/endpoints/continuable-sink.h>
 #include "spec/regp.h"
 #include "stubs/regp_backend.h"
 #include "contracts/byte-buffer.h"
@@ -118,14 +120,21 @@ __CPROVER_ensures(instance->kind == DATA_KIND_CHUNK && instance->sink.chunk == s
  * The frame structure sits at the start of the allocator block, the raw
  * octets behind it, the payload behind the 12/14/16-octet header. */
 #define RPP_ID_PARSED(id) ((id) == 0 || (id) == EPROTO || (id) == EFAULT)
-#define RPP_HLEN(f) ((size_t)((const unsigned char *)(f)->payload.data - (const unsigned char *)(f)->raw.memory))
+/* octets between two pointers into the frame block */
+#if VERIF_IS_NATIVE
+#define RPP_PDIFF(a, b) ((size_t)((const unsigned char *)(a) - (const unsigned char *)(b)))
+#define RPP_SAME_BLOCK(a, b) 1
+#else
+#define RPP_PDIFF(a, b) ((size_t)__CPROVER_POINTER_OFFSET(a) - (size_t)__CPROVER_POINTER_OFFSET(b))
+#define RPP_SAME_BLOCK(a, b) __CPROVER_same_object((a), (b))
+#endif
+#define RPP_HLEN(f) RPP_PDIFF((f)->payload.data, (f)->raw.memory)
 #define RPP_HDR_PARSED(f) \
   (RPP_TYPE_OK((f)->header.type) && (f)->header.version == SPEC_RP_VERSION \
    && ((f)->header.options & SPEC_O_RESERVED) == 0u && (f)->header.options <= 15u \
-   && (f)->raw.memory == (void *)((unsigned char *)(f) + sizeof(RPFrame)) \
-   && ((f)->payload.data == (void *)((unsigned char *)(f)->raw.memory + 12u) \
-       || (f)->payload.data == (void *)((unsigned char *)(f)->raw.memory + 14u) \
-       || (f)->payload.data == (void *)((unsigned char *)(f)->raw.memory + 16u)) \
+   && RPP_SAME_BLOCK((f)->raw.memory, (f)) && RPP_PDIFF((f)->raw.memory, (f)) == sizeof(RPFrame) \
+   && RPP_SAME_BLOCK((f)->payload.data, (f)) \
+   && (RPP_HLEN(f) == 12u || RPP_HLEN(f) == 14u || RPP_HLEN(f) == 16u) \
    && RPP_HLEN(f) <= (f)->raw.size && (f)->payload.size == (f)->raw.size - RPP_HLEN(f))
 #define RPP_F_WS(f) ((((f)->header.options) & SPEC_O_W16) ? (size_t)2 : (size_t)1)
 /* payload size rule as far as processing relies on it: a write request
@@ -162,6 +171,8 @@ __CPROVER_ensures(instance->kind == DATA_KIND_CHUNK && instance->sink.chunk == s
 
 #define RPP_BE_GHOSTS g_be_calls, g_be_kind, g_be_addr, g_be_n, g_be_buf, g_be_in, g_be_out, g_be_status, g_be_raddr
 extern uint8_t g_rx_octet;   /* octet g_k of the request payload at entry (pinned in requires) */
+
+#ifdef RPP_UNIT_REGP   /* src/register-protocol.c is part of the unit */
 
 /* ------------------------------------------------------------------------ */
 /* wire side: contracts owned by contracts/regp-wire.h (properties C08/C07).  */
@@ -465,6 +476,8 @@ __CPROVER_ensures(IMPLIES(RPP_CALLED && (g_be_status == RP_RESP_EUNMAPPED || g_b
     RPP_TX_ERR32(mf->frame, g_be_status, g_be_raddr)))
 ;
 
+#endif /* RPP_UNIT_REGP (first part) */
+
 /* ------------------------------------------------------------------------ */
 /* C09: allocator front end                                                   */
 
@@ -484,6 +497,7 @@ __CPROVER_assigns(g_al_live, g_al_frees)
 __CPROVER_ensures(g_al_live == 0 && g_al_frees == __CPROVER_old(g_al_frees) + 1)
 ;
 
+#ifdef RPP_UNIT_REGP
 /* the documented release of a returned frame: frees exactly once */
 void regp_free(RegP *p, RPFrame *f)
 __CPROVER_requires(__CPROVER_r_ok(p, sizeof(RegP)) && RPP_ALLOC_OK(p->alloc))
@@ -498,6 +512,9 @@ __CPROVER_requires(__CPROVER_rw_ok(b, sizeof(ByteBuffer)) && sizeof(RPFrame) < b
 __CPROVER_assigns(b->used)
 __CPROVER_ensures(b->used == sizeof(RPFrame))
 ;
+#endif /* RPP_UNIT_REGP (release) */
+
+#if defined(RPP_UNIT_REGP) && defined(RPP_UNIT_SINK)   /* + src/endpoints/continuable-sink.c */
 
 /* ------------------------------------------------------------------------ */
 /* C09: the continuable sink (configuration used by the receiver: allocator,  */
@@ -698,6 +715,9 @@ __CPROVER_ensures(RPP_DEC_ENS(sink, __CPROVER_return_value))
 __CPROVER_ensures(__CPROVER_return_value >= -0x7fffffff && __CPROVER_return_value <= 0x7fffffff)
 ;
 
+#endif /* RPP_UNIT_REGP && RPP_UNIT_SINK (sink, decoders) */
+
+#ifdef RPP_UNIT_REGP
 /* ------------------------------------------------------------------------ */
 /* C09: early replies and the receiver                                        */
 
@@ -741,6 +761,9 @@ __CPROVER_ensures(RPP_TX_ONE || RPP_TX_NONE)
 __CPROVER_ensures(RPP_EARLY_ENS(hdrbuf, RP_RESP_ERXOVERFLOW))
 ;
 
+#endif /* RPP_UNIT_REGP (early replies) */
+
+#if defined(RPP_UNIT_REGP) && defined(RPP_UNIT_SINK)
 /* the reply to an early error, as visible without the receiver's local
  * fallback buffer: a response of the given code or a META report, at most one */
 #define RPP_EARLY_CLASS(code) \
@@ -795,5 +818,7 @@ __CPROVER_ensures(IMPLIES(g_dec_rc >= 0 && mf->frame != NULL,
                && mf->frame->raw.size == g_dec_len)
     && IMPLIES(mf->error.id == 0, RPP_PLAUSIBLE(mf->frame))))
 ;
+
+#endif /* RPP_UNIT_REGP && RPP_UNIT_SINK (receiver) */
 
 #endif
